@@ -19,7 +19,7 @@ RULE = ("An uploader builds generated project state S_A at path P_A with --uploa
         "must succeed whenever the local build does; (2) if S_B == S_A and the fingerprint is equal, modes yes/forced "
         "execute no build/package script at all, deps modes only those of the top-level package. Non-trivial: at least "
         "one package was downloaded and at least one had to be built in the same invocation (mixed reuse), or the "
-        "complete reuse case (2); distinct = hash of the case.")
+        "complete reuse case (2); distinct = hash of the case. ")
 ASSUMPTIONS = ["file:// archive only", "the host fingerprint is emulated by a whitelisted file (VERIF_HOSTFP)",
                "Bob runs in the harness process; suspected violations are re-run with the real bob script"]
 TIME_BUDGET = {"quick": 230, "thorough": 1700}
@@ -207,8 +207,132 @@ def run_case(ctx, case, confirm=False):
     finally:
         vlib.rmtree(base)
 
+# ------------------------------------------------------------------------------ git layer (live build-ids)
+GIT_RULE = ("Git layer (a quarter of the cases): 2-3 workspaces at different paths share one file archive and one upstream "
+            "git repository; the recipe follows a branch, a tag or a commit. Generated operation lists: upstream commit, "
+            "uncommitted modification of a tracked file in an existing source workspace (and its removal), build in "
+            "workspace i with/without --upload and a generated download mode. The build script copies the source file, "
+            "so after every successful build the result of every package must equal the content of that workspace's own "
+            "source file (if the sources were never checked out because the Build-Id was predicted from the live "
+            "build-id: the content a fresh checkout would have had). Non-trivial there: a build whose checkout was "
+            "predicted and whose artifact was downloaded after an uploader had worked with modified sources or the "
+            "branch had moved.")
+
+def git_render(ws, url, pin):
+    os.makedirs(os.path.join(ws, "recipes"))
+    with open(os.path.join(ws, "config.yaml"), "w") as f:
+        f.write('bobMinimumVersion: "1.0"\n')
+    with open(os.path.join(ws, "default.yaml"), "w") as f:
+        f.write("archive:\n  backend: file\n  path: %s\n" % os.path.join(os.path.dirname(url), "archive"))
+    spec = {"branch": "branch: master", "tag": "tag: v1", "commit": "commit: %s" % pin[1]}[pin[0]]
+    with open(os.path.join(ws, "recipes", "lib.yaml"), "w") as f:
+        f.write("checkoutSCM:\n  scm: git\n  url: file://%s\n  %s\n  dir: src\n" % (url, spec))
+        f.write('buildScript: |\n  echo "$(<$1/src/f.txt)" > out.txt\n')
+        f.write('packageScript: |\n  echo "$(<$1/out.txt)" > result.txt\n')
+    with open(os.path.join(ws, "recipes", "r0.yaml"), "w") as f:
+        f.write("root: True\ndepends: [lib]\n")
+        f.write('buildScript: |\n  echo "top $(<$2/result.txt)" > out.txt\n')
+        f.write('packageScript: |\n  echo "$(<$1/out.txt)" > result.txt\n')
+
+def run_git_case(ctx, case, confirm=False):
+    from vlib import srcuni
+    run = bobproc.script if confirm else bobproc.direct
+    base = ctx.tmpdir()
+    try:
+        home = os.path.join(base, "home"); os.makedirs(home)
+        up = os.path.join(base, "up")
+        os.makedirs(up)
+        clock = [1600000000]
+        def g(cwd, *args):
+            clock[0] += 100
+            return srcuni.git(cwd, list(args), home, clock[0], check=True)
+        def upstream(content):
+            with open(os.path.join(up, "f.txt"), "w") as f: f.write(content + "\n")
+            g(up, "add", "f.txt"); g(up, "commit", "-q", "-m", content)
+        g(up, "init", "-q", "-b", "master", ".")
+        upstream("upstream-0")
+        g(up, "tag", "v1")
+        first = g(up, "rev-parse", "HEAD")[1].strip()
+        pin = (case["pin"], first)
+        head_content = "upstream-0"
+        pinned_content = lambda: head_content if pin[0] == "branch" else "upstream-0"
+        dirs = [os.path.join(base, "a", "w"), os.path.join(base, "bbbbbbbbbbbb", "deeper", "ws-b"), os.path.join(base, "c", "x", "y", "z")]
+        hacked_by_uploader = False; moved = False; ncommit = 0; nhack = 0
+        labels = ["git", "pin:" + pin[0]]
+        nontrivial = False
+        hist = []
+        for op in case["ops"]:
+            ws = dirs[op.get("ws", 0) % len(dirs)]
+            src = os.path.join(ws, "dev", "src", "lib", "1", "workspace", "src", "f.txt")
+            if op["op"] == "commit":
+                ncommit += 1; head_content = "upstream-%d" % ncommit
+                upstream(head_content); moved = True; hist.append("commit")
+            elif op["op"] == "hack":
+                if os.path.exists(src):
+                    nhack += 1
+                    with open(src, "w") as f: f.write("local hack %d, never committed\n" % nhack)
+                    hist.append("hack:%d" % (op["ws"] % len(dirs)))
+            elif op["op"] == "unhack":
+                if os.path.exists(src):
+                    g(os.path.dirname(src), "checkout", "--", "f.txt"); hist.append("unhack:%d" % (op["ws"] % len(dirs)))
+            else:
+                if not os.path.exists(ws):
+                    git_render(ws, up, pin)
+                had_src = os.path.exists(src)
+                argv = ["dev", "r0", "--download=" + op["download"]] + (["--upload"] if op["upload"] else [])
+                r = run(ws, argv, env_extra={"GIT_CONFIG_GLOBAL": "/dev/null"})
+                hist.append("build:%d:%s%s" % (op["ws"] % len(dirs), op["download"], ":upload" if op["upload"] else ""))
+                if r.rc != 0:
+                    labels.append("git-build-failed")
+                    if op["download"] in ("yes", "no", "deps") and not (had_src and _dirty_or_diverged(os.path.dirname(src), home, srcuni)):
+                        ctx.fail("git:download-build-fails", "history %r: build fails in a workspace without local changes: %s" % (hist, r.err[-400:]), case)
+                    continue
+                if op["upload"] and os.path.exists(src) and open(src).read().startswith("local hack"):
+                    hacked_by_uploader = True
+                expect = open(src).read() if os.path.exists(src) else pinned_content() + "\n"
+                built, downloaded = stats(r.out)
+                predicted = (not os.path.exists(src)) and not had_src
+                if predicted:
+                    labels.append("git-checkout-predicted")
+                    if hacked_by_uploader or moved:
+                        nontrivial = True
+                for pkg, pre in (("lib", ""), ("r0", "top ")):
+                    res = os.path.join(ws, "dev", "dist", pkg, "1", "workspace", "result.txt")
+                    if not os.path.exists(res):
+                        continue        # dependencies of a downloaded package need not be materialised
+                    got = open(res).read()
+                    if got != pre + expect:
+                        ctx.fail("git:foreign-or-stale-artifact", "history %r: package %s holds %r but the sources of this workspace "
+                                 "(or, without checkout, the configured upstream state) are %r" % (hist, pkg, got, pre + expect), case)
+        ctx.record(jhash(case), nontrivial, labels, {"git-history": hist, "pin": pin[0]})
+    finally:
+        vlib.rmtree(base)
+
+def _dirty_or_diverged(srcdir, home, srcuni):
+    rc, out, _ = srcuni.git(srcdir, ["status", "--porcelain"], home)
+    return rc != 0 or bool(out.strip())
+
+WS = st.integers(0, 2)
+git_op_st = st.one_of(
+    st.fixed_dictionaries({"op": st.just("build"), "ws": WS, "upload": st.booleans(),
+                           "download": st.sampled_from(["yes", "yes", "no", "deps", "forced-fallback"])}),
+    st.fixed_dictionaries({"op": st.just("build"), "ws": st.just(0), "upload": st.just(True), "download": st.sampled_from(["no", "yes"])}),
+    st.fixed_dictionaries({"op": st.just("hack"), "ws": st.sampled_from([0, 0, 1, 2])}),
+    st.fixed_dictionaries({"op": st.just("unhack"), "ws": st.sampled_from([0, 0, 1, 2])}),
+    st.fixed_dictionaries({"op": st.just("commit")}))
+_first = st.just({"op": "build", "ws": 0, "upload": True, "download": "no"})
+_last = st.fixed_dictionaries({"op": st.just("build"), "ws": st.sampled_from([1, 2, 2]), "upload": st.just(False),
+                               "download": st.sampled_from(["yes", "yes", "deps", "forced-fallback"])})
+# an uploader first, a (mostly fresh) downloading workspace last: the shape in which checkouts are predicted
+git_case_st = st.fixed_dictionaries({"kind": st.just("git"), "pin": st.sampled_from(["branch", "branch", "tag", "commit"]),
+                                     "ops": st.builds(lambda a, m, z: [a] + m + [z], _first, st.lists(git_op_st, min_size=1, max_size=6), _last)})
+
+RULE = RULE + GIT_RULE
 I = st.integers(0, 30)
 def case_st(quick):
+    return st.one_of(_case_st(quick), _case_st(quick), _case_st(quick), git_case_st)
+
+def _case_st(quick):
     return st.fixed_dictionaries({
         "model": projgen.model_st(2, 5 if quick else 6, richness=1),
         "edits": st.one_of(st.just([]), st.lists(projgen.edit_st, min_size=1, max_size=3)),
@@ -222,11 +346,12 @@ def case_st(quick):
     })
 
 def check(ctx, case):
+    rc = run_git_case if case.get("kind") == "git" else run_case
     try:
-        run_case(ctx, case)
+        rc(ctx, case)
     except Violation as v:
         try:
-            run_case(ctx, case, confirm=True)
+            rc(ctx, case, confirm=True)
         except Violation as w:
             raise w
         ctx.label("unconfirmed-in-fresh-process:" + v.signature)
@@ -236,6 +361,6 @@ def shard(ctx):
     run_hypothesis(ctx, case_st(ctx.quick()), lambda c: check(ctx, c), ctx.n(640, 6000), shrink=False, minimize=("edits", "noise"))
 
 def replay(ctx, case):
-    run_case(ctx, case, confirm=True)
+    (run_git_case if case.get("kind") == "git" else run_case)(ctx, case, confirm=True)
 
 FINDINGS = {}
